@@ -1,45 +1,613 @@
 /-
   Proofs.SpecWF — the abstract allocator keeps its state well formed (`WF`), allocations have the
   requested geometry, failures change nothing; lifted to every abstract history.
-  (statement file: every `sorry` below is a proof obligation)
 -/
 import RarenaVerif.Proofs.ListLemmas
+
+set_option linter.unusedVariables false
 
 namespace Rarena
 
 /-- requests are `u32` values; types of the API have alignment 1..16 -/
 def ReqOK (tsize talign : Nat) : Prop := okAlignment talign ∧ tsize % talign = 0
 
+/-! ### helper lemmas -/
+
+theorem disj_symm {a b : Ext} (h : disj a b) : disj b a := by
+  unfold disj at *; omega
+
+theorem disj_sub {e e' x : Ext} (h : disj e x) (h1 : e.1 ≤ e'.1) (h2 : e'.2 ≤ e.2) : disj e' x := by
+  unfold disj at *; omega
+
+theorem alignUp8_ge (x : Nat) : x ≤ alignUp 8 x := by unfold alignUp; omega
+theorem alignUp8_lt (x : Nat) : alignUp 8 x < x + 8 := by unfold alignUp; omega
+theorem alignUp8_mod (x : Nat) : alignUp 8 x % 8 = 0 := by unfold alignUp; omega
+theorem alignUp8_id (x : Nat) (h : x % 8 = 0) : alignUp 8 x = x := by unfold alignUp; omega
+
+theorem alignUp_ge (a x : Nat) (h : okAlignment a) : x ≤ alignUp a x := by
+  rcases h with rfl | rfl | rfl | rfl | rfl <;> unfold alignUp <;> omega
+theorem alignUp_lt (a x : Nat) (h : okAlignment a) : alignUp a x < x + a := by
+  rcases h with rfl | rfl | rfl | rfl | rfl <;> unfold alignUp <;> omega
+theorem alignUp_mod (a x : Nat) : alignUp a x % a = 0 := by
+  unfold alignUp; exact Nat.mul_mod_left _ _
+
+theorem sortedBy_sublist (k : Kind) {l l' : List Seg} (hs : l'.Sublist l) (h : sortedBy k l) : sortedBy k l' := by
+  cases k with
+  | none => trivial
+  | opt => exact List.Pairwise.sublist hs h
+  | pess => exact List.Pairwise.sublist hs h
+
+theorem sortedBy_nil (k : Kind) : sortedBy k [] := by
+  cases k <;> simp [sortedBy]
+
+@[simp] theorem incDiscarded_free (c : Cfg) (a : A) (n : Nat) : (a.incDiscarded c n).free = a.free := by
+  unfold A.incDiscarded; split <;> rfl
+@[simp] theorem incDiscarded_allocated (c : Cfg) (a : A) (n : Nat) : (a.incDiscarded c n).allocated = a.allocated := by
+  unfold A.incDiscarded; split <;> rfl
+@[simp] theorem incDiscarded_cap (c : Cfg) (a : A) (n : Nat) : (a.incDiscarded c n).cap = a.cap := by
+  unfold A.incDiscarded; split <;> rfl
+@[simp] theorem incDiscarded_minSeg (c : Cfg) (a : A) (n : Nat) : (a.incDiscarded c n).minSeg = a.minSeg := by
+  unfold A.incDiscarded; split <;> rfl
+
+theorem incDiscarded_disc_lt (c : Cfg) (a : A) (n : Nat) (h : a.discarded < TWO32) :
+    (a.incDiscarded c n).discarded < TWO32 := by
+  unfold A.incDiscarded; split
+  · exact h
+  · exact Nat.mod_lt _ (by unfold TWO32; omega)
+
+theorem incDiscarded_disc (c : Cfg) (a : A) (n : Nat) (h : a.discarded < TWO32) :
+    ∃ d, (a.incDiscarded c n).discarded = (a.discarded + d) % TWO32 := by
+  unfold A.incDiscarded; split
+  · exact ⟨0, by simp [Nat.mod_eq_of_lt h]⟩
+  · exact ⟨n, rfl⟩
+
+theorem incDiscarded_zero (c : Cfg) (a : A) (h : a.discarded < TWO32) : a.incDiscarded c 0 = a := by
+  unfold A.incDiscarded; split
+  · rfl
+  · cases a; simp at *; exact Nat.mod_eq_of_lt h
+
+theorem disc_add_add (x d1 d2 : Nat) : ((x + d1) % TWO32 + d2) % TWO32 = (x + (d1 + d2)) % TWO32 := by
+  unfold TWO32; omega
+
+theorem WF.incDiscarded {c : Cfg} {a : A} {lives : List Ext} (hw : WF c a lives) (n : Nat) :
+    WF c (a.incDiscarded c n) lives := by
+  constructor
+  · simpa using hw.segs
+  · simpa using hw.sorted
+  · simpa using hw.disjoint
+  · simpa using hw.lives_in
+  · exact hw.lo
+  · simpa using hw.mid
+  · simpa using hw.hi
+  · simpa using hw.none_empty
+  · exact incDiscarded_disc_lt c a n hw.disc
+
+theorem WF.perm {c : Cfg} {a : A} {lives lives' : List Ext} (hw : WF c a lives) (hp : lives.Perm lives') :
+    WF c a lives' := by
+  refine { hw with disjoint := ?_, lives_in := ?_ }
+  · exact (List.Perm.pairwise_iff disj_symm (List.Perm.append_left _ hp)).1 hw.disjoint
+  · intro e he; exact hw.lives_in e (hp.symm.subset he)
+
+/-- replacing one extent by pairwise disjoint non-empty sub-extents -/
+theorem WF.shrink {c : Cfg} {a : A} {e : Ext} {lives : List Ext} (hw : WF c a (e :: lives)) (subs : List Ext)
+    (hs : ∀ s ∈ subs, e.1 ≤ s.1 ∧ s.1 < s.2 ∧ s.2 ≤ e.2) (hp : subs.Pairwise disj) :
+    WF c a (subs ++ lives) := by
+  have hd := hw.disjoint
+  rw [List.pairwise_append, List.pairwise_cons] at hd
+  obtain ⟨hF, ⟨heL, hL⟩, hFL⟩ := hd
+  refine { hw with disjoint := ?_, lives_in := ?_ }
+  · rw [List.pairwise_append, List.pairwise_append]
+    refine ⟨hF, ⟨hp, hL, ?_⟩, ?_⟩
+    · intro s hs' y hy
+      exact disj_sub (heL y hy) (hs s hs').1 (hs s hs').2.2
+    · intro x hx y hy
+      rcases List.mem_append.1 hy with hy | hy
+      · exact disj_symm (disj_sub (disj_symm (hFL x hx e (List.mem_cons_self ..))) (hs y hy).1 (hs y hy).2.2)
+      · exact hFL x hx y (List.mem_cons_of_mem _ hy)
+  · intro x hx
+    rcases List.mem_append.1 hx with hx | hx
+    · have h1 := hs x hx
+      have h2 := hw.lives_in e (List.mem_cons_self ..)
+      omega
+    · exact hw.lives_in x (List.mem_cons_of_mem _ hx)
+
+theorem WF.drop {c : Cfg} {a : A} {e : Ext} {lives : List Ext} (hw : WF c a (e :: lives)) : WF c a lives := by
+  simpa using hw.shrink [] (by simp) List.Pairwise.nil
+
+/-- unlinking one segment: its extent becomes an owned extent -/
+theorem WF.take {c : Cfg} {a : A} {lives : List Ext} (hw : WF c a lives) (g : Seg) (rest : List Seg)
+    (hp : a.free.Perm (g :: rest)) (hsub : rest.Sublist a.free) :
+    WF c { a with free := rest } (g.ext :: lives) := by
+  have hg : g ∈ a.free := hp.symm.subset (List.mem_cons_self ..)
+  have hgo := hw.segs g hg
+  constructor
+  · intro x hx; exact hw.segs x (hsub.subset hx)
+  · exact sortedBy_sublist _ hsub hw.sorted
+  · show (rest.map Seg.ext ++ g.ext :: lives).Pairwise disj
+    have h1 : (a.free.map Seg.ext ++ lives).Perm (g.ext :: (rest.map Seg.ext ++ lives)) := by
+      simpa using List.Perm.append_right lives (List.Perm.map Seg.ext hp)
+    exact (List.Perm.pairwise_iff disj_symm (h1.trans List.perm_middle.symm)).1 hw.disjoint
+  · intro e he
+    rcases List.mem_cons.1 he with rfl | he
+    · unfold SegOK at hgo
+      simp only [Seg.ext, Seg.lo, Seg.hi, NODE] at *
+      omega
+    · exact hw.lives_in e he
+  · exact hw.lo
+  · exact hw.mid
+  · exact hw.hi
+  · intro hk; have := hw.none_empty hk; rw [this] at hg; simp at hg
+  · exact hw.disc
+
+
+/-! ### tryNew / freelistDealloc / dealloc -/
+
+theorem tryNew_cases (c : Cfg) (a : A) (off size : Nat) :
+    a.tryNew c off size = (none, a) ∨ a.tryNew c off size = (none, a.incDiscarded c size) ∨
+    (a.tryNew c off size = (some ⟨alignUp 8 off, size - (alignUp 8 off - off + NODE)⟩, a) ∧
+      off ≠ 0 ∧ alignUp 8 off - off + NODE < size ∧ a.validate off size = true) := by
+  unfold A.tryNew A.validate
+  by_cases h0 : off = 0 ∨ size = 0
+  · simp [h0]
+  · simp only [h0, if_false]
+    by_cases h1 : alignUp 8 off - off + NODE ≥ size
+    · simp [h1]
+    · simp only [h1, if_false]
+      by_cases h2 : size - (alignUp 8 off - off + NODE) < a.minSeg
+      · simp [h2]
+      · simp only [h2, if_false]
+        refine Or.inr (Or.inr ⟨trivial, ?_, ?_, ?_⟩)
+        · omega
+        · omega
+        · simp
+
+theorem validate_tryNew (c : Cfg) (a : A) (off size : Nat) (h : a.validate off size = true) :
+    a.tryNew c off size = (some ⟨alignUp 8 off, size - (alignUp 8 off - off + NODE)⟩, a) ∧
+      off ≠ 0 ∧ alignUp 8 off - off + NODE < size := by
+  unfold A.tryNew
+  unfold A.validate at h
+  by_cases h0 : off = 0 ∨ size = 0
+  · simp [h0] at h
+  · simp only [h0, if_false] at h ⊢
+    by_cases h1 : alignUp 8 off - off + NODE ≥ size
+    · simp [h1] at h
+    · simp only [h1, if_false] at h ⊢
+      by_cases h2 : size - (alignUp 8 off - off + NODE) < a.minSeg
+      · simp [h2] at h
+      · simp only [h2, if_false]
+        exact ⟨trivial, by omega, by omega⟩
+
+theorem validate_false_tryNew (c : Cfg) (a : A) (off size : Nat) (h : a.validate off size = false) :
+    (a.tryNew c off size).1 = none := by
+  rcases tryNew_cases c a off size with h1 | h1 | ⟨_, _, _, h1⟩
+  · rw [h1]
+  · rw [h1]
+  · rw [h1] at h; cases h
+
+/-- linking a new segment cut out of an owned extent -/
+theorem WF.link {c : Cfg} {a : A} {e : Ext} {lives : List Ext} (hw : WF c a (e :: lives)) (hk : c.kind ≠ .none)
+    (off size : Nat) (h1 : e.1 ≤ off) (h3 : off + size ≤ e.2) (hlt : alignUp 8 off - off + NODE < size) :
+    WF c { a with free := insertSeg c.kind ⟨alignUp 8 off, size - (alignUp 8 off - off + NODE)⟩ a.free } lives := by
+  have hge := alignUp8_ge off
+  have hmod := alignUp8_mod off
+  have hein := hw.lives_in e (List.mem_cons_self ..)
+  have hsh := hw.shrink [Seg.ext ⟨alignUp 8 off, size - (alignUp 8 off - off + NODE)⟩]
+    (by
+      intro s hs
+      simp only [List.mem_singleton] at hs
+      subst hs
+      simp only [Seg.ext, Seg.lo, Seg.hi, NODE] at *
+      omega) (by simp)
+  constructor
+  · intro x hx
+    rcases (mem_insertSeg _ _ _ _).1 hx with rfl | hx
+    · unfold SegOK
+      simp only [Seg.hi, NODE] at *
+      omega
+    · exact hw.segs x hx
+  · exact insertSeg_sorted _ _ _ hw.sorted
+  · have hp : ((insertSeg c.kind ⟨alignUp 8 off, size - (alignUp 8 off - off + NODE)⟩ a.free).map Seg.ext ++ lives).Perm
+        (a.free.map Seg.ext ++ ([Seg.ext ⟨alignUp 8 off, size - (alignUp 8 off - off + NODE)⟩] ++ lives)) := by
+      have := List.Perm.append_right lives (List.Perm.map Seg.ext (insertSeg_perm c.kind ⟨alignUp 8 off, size - (alignUp 8 off - off + NODE)⟩ a.free))
+      refine this.trans ?_
+      simpa using List.perm_middle.symm
+    exact (List.Perm.pairwise_iff disj_symm hp).2 hsh.disjoint
+  · intro x hx; exact hw.lives_in x (List.mem_cons_of_mem _ hx)
+  · exact hw.lo
+  · exact hw.mid
+  · exact hw.hi
+  · intro h; exact absurd h hk
+  · exact hw.disc
+
+theorem freelistDealloc_wf {c : Cfg} {a : A} {e : Ext} {lives : List Ext} (hw : WF c a (e :: lives))
+    (hk : c.kind ≠ .none) (off size : Nat) (h1 : e.1 ≤ off) (h3 : off + size ≤ e.2) :
+    WF c (a.freelistDealloc c off size).2 lives := by
+  unfold A.freelistDealloc
+  rcases tryNew_cases c a off size with h | h | ⟨h, _, hlt, _⟩
+  · rw [h]; exact hw.drop
+  · rw [h]; exact hw.drop.incDiscarded _
+  · rw [h]; exact (hw.link hk off size h1 h3 hlt).incDiscarded _
+
+theorem freelistDealloc_scalars (c : Cfg) (a : A) (off size : Nat) (hd : a.discarded < TWO32) :
+    (a.freelistDealloc c off size).2.cap = a.cap ∧ (a.freelistDealloc c off size).2.minSeg = a.minSeg ∧
+    (a.freelistDealloc c off size).2.allocated = a.allocated ∧
+    ∃ d, (a.freelistDealloc c off size).2.discarded = (a.discarded + d) % TWO32 := by
+  unfold A.freelistDealloc
+  rcases tryNew_cases c a off size with h | h | ⟨h, _, hlt, _⟩
+  · rw [h]; exact ⟨rfl, rfl, rfl, 0, by simp [Nat.mod_eq_of_lt hd]⟩
+  · rw [h]; exact ⟨by simp, by simp, by simp, incDiscarded_disc c a size hd⟩
+  · rw [h]
+    refine ⟨by simp, by simp, by simp, ?_⟩
+    exact incDiscarded_disc c { a with free := _ } NODE hd
+
+
+theorem WF.rewind {c : Cfg} {a : A} {e : Ext} {lives : List Ext} (hw : WF c a (e :: lives))
+    (he : e.2 = a.allocated) : WF c { a with allocated := e.1 } lives := by
+  have hd := hw.disjoint
+  rw [List.pairwise_append, List.pairwise_cons] at hd
+  obtain ⟨hF, ⟨heL, hL⟩, hFL⟩ := hd
+  have hein := hw.lives_in e (List.mem_cons_self ..)
+  constructor
+  · intro g hg
+    have h1 := hw.segs g hg
+    have h2 := hFL g.ext (List.mem_map_of_mem hg) e (List.mem_cons_self ..)
+    unfold SegOK at *
+    unfold disj at h2
+    simp only [Seg.ext, Seg.lo, Seg.hi, NODE] at *
+    omega
+  · exact hw.sorted
+  · exact hw.drop.disjoint
+  · intro x hx
+    have h1 := hw.lives_in x (List.mem_cons_of_mem _ hx)
+    have h2 := heL x hx
+    unfold disj at h2
+    simp only at *
+    omega
+  · exact hw.lo
+  · exact hein.1
+  · have := hw.hi; simp only at *; omega
+  · exact hw.none_empty
+  · exact hw.disc
+
+theorem dealloc_wf (c : Cfg) (a : A) (lives : List Ext) (m : Meta)
+    (hw : WF c a lives) (hm : m.owned ∈ lives) (hne : m.memSize ≠ 0) :
+    WF c (a.dealloc c m.memOff m.memSize).2 (lives.erase m.owned) := by
+  have hw' : WF c a (m.owned :: lives.erase m.owned) := hw.perm (List.perm_cons_erase hm)
+  have hin := hw.lives_in _ hm
+  unfold A.dealloc
+  by_cases heq : a.allocated = m.memOff + m.memSize
+  · rw [if_pos heq]
+    have he : m.owned.2 = a.allocated := by
+      simp only [Meta.owned] at *; omega
+    have := hw'.rewind he
+    simpa [Meta.owned] using this
+  · rw [if_neg heq]
+    split
+    · exact hw'.drop.incDiscarded _
+    · rename_i hk
+      refine freelistDealloc_wf hw' (fun h => hk h) _ _ (Nat.le_refl _) ?_
+      simp only [Meta.owned]; omega
+
+theorem dealloc_zero (c : Cfg) (a : A) (off : Nat) (hd : a.discarded < TWO32) : (a.dealloc c off 0).2 = a := by
+  unfold A.dealloc
+  by_cases heq : a.allocated = off + 0
+  · rw [if_pos heq]; cases a; simp at *; omega
+  · rw [if_neg heq]
+    split
+    · exact incDiscarded_zero c a hd
+    · unfold A.freelistDealloc A.tryNew; simp
+
+/-- releasing the null handle of a zero-size request (`dealloc(0, 0)`) changes nothing -/
+theorem dealloc_null (c : Cfg) (a : A) (hw : 1 ≤ a.allocated) (hd : a.discarded < TWO32) : (a.dealloc c 0 0).2 = a :=
+  dealloc_zero c a 0 hd
+
+-- CHANGED: added the hypothesis `hd : a.discarded < TWO32`. Without it the last conjunct is false: in the
+-- rewind case (`a.allocated = off + size`) `discarded` is unchanged, and `D = (D + d) % TWO32` has no solution
+-- `d` when `D ≥ TWO32`. Every well-formed state satisfies the hypothesis (`WF.disc`).
+theorem dealloc_scalars (c : Cfg) (a : A) (off size : Nat) (hd : a.discarded < TWO32) :
+    (a.dealloc c off size).2.cap = a.cap ∧ (a.dealloc c off size).2.minSeg = a.minSeg ∧
+    (a.dealloc c off size).2.allocated ≤ a.allocated ∧
+    ∃ d, (a.dealloc c off size).2.discarded = (a.discarded + d) % TWO32 := by
+  unfold A.dealloc
+  by_cases heq : a.allocated = off + size
+  · rw [if_pos heq]
+    exact ⟨rfl, rfl, by simp only; omega, 0, by simp [Nat.mod_eq_of_lt hd]⟩
+  · rw [if_neg heq]
+    split
+    · exact ⟨by simp, by simp, by simp, incDiscarded_disc c a size hd⟩
+    · obtain ⟨h1, h2, h3, h4⟩ := freelistDealloc_scalars c a off size hd
+      exact ⟨h1, h2, Nat.le_of_eq h3, h4⟩
+
+theorem foldl_disc_lt (ro : Bool) (l : List Seg) (d : Nat) (hd : d < TWO32) :
+    l.foldl (fun d g => if ro then d else (d + g.size) % TWO32) d < TWO32 := by
+  induction l generalizing d with
+  | nil => exact hd
+  | cons g rest ih =>
+    simp only [List.foldl_cons]
+    apply ih
+    split
+    · exact hd
+    · exact Nat.mod_lt _ (by unfold TWO32; omega)
+
+theorem discardFreelist_wf (c : Cfg) (a : A) (lives : List Ext) (hw : WF c a lives) :
+    WF c (a.discardFreelist c).2 lives := by
+  unfold A.discardFreelist
+  split
+  · exact hw
+  · split
+    · exact hw
+    · constructor
+      · intro g hg; simp at hg
+      · exact sortedBy_nil _
+      · exact List.Pairwise.sublist (List.sublist_append_right _ _) hw.disjoint
+      · exact hw.lives_in
+      · exact hw.lo
+      · exact hw.mid
+      · exact hw.hi
+      · intro _; rfl
+      · have := foldl_disc_lt false a.free _ hw.disc
+        simpa using this
+
 theorem WF.fresh (c : Cfg) (cap ms : Nat) (h1 : 1 ≤ c.dataOffset) (h2 : c.dataOffset ≤ cap) :
     WF c (A.fresh cap c.dataOffset ms) [] := by
-  sorry
+  unfold A.fresh
+  constructor
+  · intro g hg; simp at hg
+  · exact sortedBy_nil _
+  · simp
+  · intro e he; simp at he
+  · exact h1
+  · exact Nat.le_refl _
+  · exact h2
+  · intro _; rfl
+  · show 0 < TWO32; unfold TWO32; omega
+
+
+/-! ### the slow path -/
+
+structure SlowPost (c : Cfg) (a a' : A) (lives : List Ext) (m : Meta) (size : Nat) : Prop where
+  wf : WF c a' (m.owned :: lives)
+  nonempty : m.memSize ≠ 0
+  al8 : m.memOff % 8 = 0
+  ptr : m.ptrOff = m.memOff + 8
+  psize : m.ptrSize = size
+  alloc_eq : a'.allocated = a.allocated
+  disc : ∃ d, a'.discarded = (a.discarded + d) % TWO32
+  cap_eq : a'.cap = a.cap
+  minSeg_eq : a'.minSeg = a.minSeg
+
+theorem finishSlow_post {c : Cfg} {a : A} {g : Seg} {lives : List Ext} (hw : WF c a (g.ext :: lives))
+    (hk : c.kind ≠ .none) (hal : g.off % 8 = 0) (hsz : 1 ≤ g.size) (size : Nat) (hs : size ≤ g.size)
+    (h0 : size ≠ 0) :
+    SlowPost c a (a.finishSlow c g size).2 lives (a.finishSlow c g size).1 size := by
+  unfold A.finishSlow
+  simp only []
+  by_cases hv : a.validate (g.off + NODE + size) (g.size - size) = true
+  · rw [if_pos hv]
+    obtain ⟨_, _, hlt⟩ := validate_tryNew c a _ _ hv
+    obtain ⟨s1, s2, s3, s4⟩ := freelistDealloc_scalars c a (g.off + NODE + size) (g.size - size) hw.disc
+    refine ⟨?_, ?_, hal, rfl, rfl, s3, s4, s1, s2⟩
+    · have hsh := hw.shrink [Meta.owned ⟨g.off, g.size - (g.size - size), g.off + NODE, size⟩,
+          (g.off + NODE + size, g.off + NODE + g.size)]
+        (by
+          intro s hs'
+          simp only [List.mem_cons, List.mem_nil_iff, or_false] at hs'
+          rcases hs' with rfl | rfl
+          · simp only [Meta.owned, Seg.ext, Seg.lo, Seg.hi, NODE] at *; omega
+          · simp only [Seg.ext, Seg.lo, Seg.hi, NODE] at *; omega)
+        (by
+          simp only [List.pairwise_cons, List.mem_cons, List.mem_nil_iff, or_false, forall_eq,
+            List.Pairwise.nil, and_true, false_imp_iff, implies_true]
+          unfold disj; simp only [Meta.owned, NODE]; omega)
+      have hsw : WF c a ((g.off + NODE + size, g.off + NODE + g.size) ::
+          Meta.owned ⟨g.off, g.size - (g.size - size), g.off + NODE, size⟩ :: lives) :=
+        hsh.perm (List.Perm.swap _ _ _)
+      refine freelistDealloc_wf hsw hk _ _ (Nat.le_refl _) ?_
+      simp only; omega
+    · simp only; omega
+  · rw [if_neg hv]
+    refine ⟨?_, ?_, hal, rfl, rfl, rfl, ⟨0, by simp [Nat.mod_eq_of_lt hw.disc]⟩, rfl, rfl⟩
+    · have hsh := hw.shrink [Meta.owned ⟨g.off, g.size, g.off + NODE, size⟩]
+        (by
+          intro s hs'
+          simp only [List.mem_cons, List.mem_nil_iff, or_false] at hs'
+          subst hs'
+          simp only [Meta.owned, Seg.ext, Seg.lo, Seg.hi, NODE] at *; omega)
+        (by simp)
+      simpa using hsh
+    · simp only; omega
+
+theorem SlowPost.base {c : Cfg} {a1 a a' : A} {lives : List Ext} {m : Meta} {size : Nat}
+    (h : SlowPost c a1 a' lives m size) (h1 : a1.allocated = a.allocated) (h2 : a1.discarded = a.discarded)
+    (h3 : a1.cap = a.cap) (h4 : a1.minSeg = a.minSeg) : SlowPost c a a' lives m size :=
+  ⟨h.wf, h.nonempty, h.al8, h.ptr, h.psize, h1 ▸ h.alloc_eq, h2 ▸ h.disc, h3 ▸ h.cap_eq, h4 ▸ h.minSeg_eq⟩
+
+theorem slow_post {c : Cfg} {a : A} {lives : List Ext} (hw : WF c a lives) (size : Nat) (h0 : size ≠ 0)
+    (m : Meta) (a' : A) (h : a.slow c size = (.ok m, a')) : SlowPost c a a' lives m size := by
+  unfold A.slow at h
+  split at h
+  · cases h
+  · split at h
+    · cases h
+    · rename_i hk
+      split at h
+      · cases h
+      · rename_i g rest hfree
+        split at h
+        · cases h
+        · rename_i hle
+          simp only [Prod.mk.injEq, Except.ok.injEq] at h
+          obtain ⟨rfl, rfl⟩ := h
+          have hg : g ∈ a.free := by rw [hfree]; exact List.mem_cons_self ..
+          have hgo := hw.segs g hg
+          have hw1 : WF c { a with free := rest } (g.ext :: lives) :=
+            hw.take g rest (by rw [hfree]) (by rw [hfree]; exact List.sublist_cons_self _ _)
+          have := finishSlow_post hw1 (by rw [hk]; simp) hgo.1 hgo.2.1 size (by omega) h0
+          exact this.base rfl rfl rfl rfl
+    · rename_i hk
+      split at h
+      · cases h
+      · rename_i g rest htf
+        simp only [Prod.mk.injEq, Except.ok.injEq] at h
+        obtain ⟨rfl, rfl⟩ := h
+        obtain ⟨pre, post, hfree, hrest, hp, _⟩ := takeFirst_some _ _ _ _ htf
+        have hg : g ∈ a.free := by rw [hfree]; simp
+        have hgo := hw.segs g hg
+        have hw1 : WF c { a with free := rest } (g.ext :: lives) :=
+          hw.take g rest (by rw [hfree, hrest]; exact List.perm_middle)
+            (by rw [hfree, hrest]; exact List.Sublist.append_left (List.sublist_cons_self _ _) _)
+        have := finishSlow_post hw1 (by rw [hk]; simp) hgo.1 hgo.2.1 size (by simpa using hp) h0
+        exact this.base rfl rfl rfl rfl
+
+
+theorem slow_err {c : Cfg} {a a' : A} {size : Nat} {e : Err} (h : a.slow c size = (.error e, a')) :
+    a' = a ∧ (e = .readOnly ↔ c.ro = true) := by
+  unfold A.slow at h
+  split at h
+  · rename_i hro
+    simp only [Prod.mk.injEq, Except.error.injEq] at h
+    obtain ⟨rfl, rfl⟩ := h
+    exact ⟨rfl, by simp [hro]⟩
+  · rename_i hro
+    have hins : ∀ {x : A}, ((Except.error Err.insufficient : Except Err Meta), x) = (.error e, a') →
+        a' = x ∧ (e = .readOnly ↔ c.ro = true) := by
+      intro x hx
+      simp only [Prod.mk.injEq, Except.error.injEq] at hx
+      obtain ⟨rfl, rfl⟩ := hx
+      exact ⟨rfl, by simp [hro]⟩
+    split at h
+    · exact hins h
+    · split at h
+      · exact hins h
+      · split at h
+        · exact hins h
+        · simp at h
+    · split at h
+      · exact hins h
+      · simp at h
+
+theorem slowEntry_err {c : Cfg} {a a' : A} {size : Nat} {post : Meta → Meta} {e : Err}
+    (h : a.slowEntry c size post = (.error e, a')) : a' = a ∧ (e = .readOnly ↔ c.ro = true) := by
+  unfold A.slowEntry at h
+  split at h
+  · simp at h
+  · rename_i e' a'' hs
+    simp only [Prod.mk.injEq, Except.error.injEq] at h
+    obtain ⟨rfl, rfl⟩ := h
+    exact slow_err hs
+
+theorem slowEntry_not_none {c : Cfg} {a a' : A} {size : Nat} {post : Meta → Meta}
+    (h : a.slowEntry c size post = (.ok none, a')) : False := by
+  unfold A.slowEntry at h
+  split at h <;> simp at h
+
+theorem slowEntry_ok {c : Cfg} {a a' : A} {size : Nat} {post : Meta → Meta} {m' : Meta}
+    (h : a.slowEntry c size post = (.ok (some m'), a')) : ∃ m, a.slow c size = (.ok m, a') ∧ m' = post m := by
+  unfold A.slowEntry at h
+  split at h
+  · rename_i m a'' hs
+    simp only [Prod.mk.injEq, Except.ok.injEq, Option.some.injEq] at h
+    obtain ⟨rfl, rfl⟩ := h
+    exact ⟨m, hs, rfl⟩
+  · simp at h
 
 /-! ### failures change nothing, zero-size requests occupy nothing -/
 
-theorem allocBytes_err (c : Cfg) (a a' : A) (n : Nat) (e : Err) (h : a.allocBytes c n = (.error e, a')) : a' = a := by
-  sorry
+theorem allocBytes_err' (c : Cfg) (a a' : A) (n : Nat) (e : Err) (h : a.allocBytes c n = (.error e, a')) :
+    a' = a ∧ (e = .readOnly ↔ c.ro = true) := by
+  unfold A.allocBytes at h
+  split at h
+  · rename_i hro
+    simp only [Prod.mk.injEq, Except.error.injEq] at h
+    obtain ⟨rfl, rfl⟩ := h
+    exact ⟨rfl, by simp [hro]⟩
+  · split at h
+    · simp at h
+    · split at h
+      · simp at h
+      · exact slowEntry_err h
 
-theorem allocAligned_err (c : Cfg) (a a' : A) (ts ta ex : Nat) (e : Err)
-    (h : a.allocAligned c ts ta ex = (.error e, a')) : a' = a := by
-  sorry
-
-theorem allocT_err (c : Cfg) (a a' : A) (ts ta : Nat) (e : Err) (h : a.allocT c ts ta = (.error e, a')) : a' = a := by
-  sorry
-
-theorem allocBytes_none (c : Cfg) (a a' : A) (n : Nat) (h : a.allocBytes c n = (.ok none, a')) : a' = a ∧ n = 0 := by
-  sorry
-
-theorem allocAligned_none (c : Cfg) (a a' : A) (ts ta ex : Nat) (h : a.allocAligned c ts ta ex = (.ok none, a')) :
-    a' = a ∧ ts = 0 ∧ ex = 0 := by
-  sorry
-
-theorem allocT_none (c : Cfg) (a a' : A) (ts ta : Nat) (h : a.allocT c ts ta = (.ok none, a')) : a' = a ∧ ts = 0 := by
-  sorry
+theorem allocBytes_err (c : Cfg) (a a' : A) (n : Nat) (e : Err) (h : a.allocBytes c n = (.error e, a')) : a' = a :=
+  (allocBytes_err' c a a' n e h).1
 
 /-- the error kind: `ReadOnly` exactly on read-only arenas -/
 theorem allocBytes_err_kind (c : Cfg) (a a' : A) (n : Nat) (e : Err) (h : a.allocBytes c n = (.error e, a')) :
-    (e = .readOnly ↔ c.ro = true) := by
-  sorry
+    (e = .readOnly ↔ c.ro = true) :=
+  (allocBytes_err' c a a' n e h).2
+
+theorem allocAligned_err (c : Cfg) (a a' : A) (ts ta ex : Nat) (e : Err)
+    (h : a.allocAligned c ts ta ex = (.error e, a')) : a' = a := by
+  unfold A.allocAligned at h
+  split at h
+  · simp only [Prod.mk.injEq] at h; exact h.2.symm
+  · split at h
+    · exact allocBytes_err c a a' ex e h
+    · simp only [] at h
+      split at h
+      · simp at h
+      · split at h
+        · exact (slowEntry_err h).1
+        · simp only [Prod.mk.injEq] at h; exact h.2.symm
+
+theorem allocT_err (c : Cfg) (a a' : A) (ts ta : Nat) (e : Err) (h : a.allocT c ts ta = (.error e, a')) : a' = a := by
+  unfold A.allocT at h
+  split at h
+  · simp only [Prod.mk.injEq] at h; exact h.2.symm
+  · split at h
+    · simp at h
+    · simp only [] at h
+      split at h
+      · simp at h
+      · exact (slowEntry_err h).1
+
+theorem allocBytes_none (c : Cfg) (a a' : A) (n : Nat) (h : a.allocBytes c n = (.ok none, a')) : a' = a ∧ n = 0 := by
+  unfold A.allocBytes at h
+  split at h
+  · simp at h
+  · split at h
+    · rename_i h0
+      simp only [Prod.mk.injEq] at h
+      exact ⟨h.2.symm, h0⟩
+    · split at h
+      · simp at h
+      · exact (slowEntry_not_none h).elim
+
+theorem allocAligned_none (c : Cfg) (a a' : A) (ts ta ex : Nat) (h : a.allocAligned c ts ta ex = (.ok none, a')) :
+    a' = a ∧ ts = 0 ∧ ex = 0 := by
+  unfold A.allocAligned at h
+  split at h
+  · simp at h
+  · split at h
+    · rename_i hz
+      obtain ⟨h1, h2⟩ := allocBytes_none c a a' ex h
+      exact ⟨h1, hz.1, h2⟩
+    · simp only [] at h
+      split at h
+      · simp at h
+      · split at h
+        · exact (slowEntry_not_none h).elim
+        · simp at h
+
+theorem allocT_none (c : Cfg) (a a' : A) (ts ta : Nat) (h : a.allocT c ts ta = (.ok none, a')) : a' = a ∧ ts = 0 := by
+  unfold A.allocT at h
+  split at h
+  · simp at h
+  · split at h
+    · rename_i h0
+      simp only [Prod.mk.injEq] at h
+      exact ⟨h.2.symm, h0⟩
+    · simp only [] at h
+      split at h
+      · simp at h
+      · exact (slowEntry_not_none h).elim
+
+/-- zero-size requests succeed on any writable arena, even a full one -/
+theorem allocBytes_zero (c : Cfg) (a : A) (hro : c.ro = false) : a.allocBytes c 0 = (.ok none, a) := by
+  unfold A.allocBytes; simp [hro]
+
+theorem allocT_zero (c : Cfg) (a : A) (ta : Nat) (hro : c.ro = false) : a.allocT c 0 ta = (.ok none, a) := by
+  unfold A.allocT; simp [hro]
+
 
 /-! ### successful allocations -/
 
@@ -55,49 +623,180 @@ structure AllocPost (c : Cfg) (a a' : A) (lives : List Ext) (m : Meta) : Prop wh
   cap_eq : a'.cap = a.cap
   minSeg_eq : a'.minSeg = a.minSeg
 
+/-- the bump path -/
+theorem AllocPost.of_bump {c : Cfg} {a : A} {lives : List Ext} (hw : WF c a lives) (m : Meta) (want : Nat)
+    (h1 : m.memOff = a.allocated) (h2 : m.memSize = want - a.allocated) (hgt : a.allocated < want)
+    (hcap : want ≤ a.cap) (h3 : a.allocated ≤ m.ptrOff) (h4 : m.ptrOff + m.ptrSize ≤ want) :
+    AllocPost c a { a with allocated := want } lives m := by
+  have hown : m.owned = (a.allocated, want) := by
+    simp only [Meta.owned, Prod.mk.injEq]; omega
+  have hmid := hw.mid
+  refine ⟨?_, by omega, by omega, by omega, h4, Nat.le_of_lt hgt, ⟨0, by simp [Nat.mod_eq_of_lt hw.disc]⟩, rfl, rfl⟩
+  rw [hown]
+  have hd := hw.disjoint
+  rw [List.pairwise_append] at hd
+  obtain ⟨hF, hL, hFL⟩ := hd
+  constructor
+  · intro g hg
+    have := hw.segs g hg
+    unfold SegOK at *
+    simp only at *; omega
+  · exact hw.sorted
+  · show (a.free.map Seg.ext ++ (a.allocated, want) :: lives).Pairwise disj
+    rw [List.pairwise_append, List.pairwise_cons]
+    refine ⟨hF, ⟨?_, hL⟩, ?_⟩
+    · intro x hx
+      have := hw.lives_in x hx
+      unfold disj; simp only; omega
+    · intro x hx y hy
+      rcases List.mem_cons.1 hy with rfl | hy
+      · obtain ⟨g, hg, rfl⟩ := List.mem_map.1 hx
+        have := hw.segs g hg
+        unfold SegOK at this
+        unfold disj; simp only [Seg.ext, Seg.hi, Seg.lo] at *; omega
+      · exact hFL x hx y hy
+  · intro e he
+    rcases List.mem_cons.1 he with rfl | he
+    · simp only; omega
+    · have := hw.lives_in e he
+      simp only; omega
+  · exact hw.lo
+  · show c.dataOffset ≤ want; omega
+  · exact hcap
+  · exact hw.none_empty
+  · exact hw.disc
+
+/-- the slow path followed by a re-alignment of the accessible range inside the handed-out range -/
+theorem AllocPost.of_slow {c : Cfg} {a a' : A} {lives : List Ext} {m : Meta} {size : Nat}
+    (sp : SlowPost c a a' lives m size) (m' : Meta) (h1 : m'.memOff = m.memOff) (h2 : m'.memSize = m.memSize)
+    (h3 : m.ptrOff ≤ m'.ptrOff) (h4 : m'.ptrOff + m'.ptrSize ≤ m.ptrOff + m.ptrSize) :
+    AllocPost c a a' lives m' := by
+  have hin := sp.wf.lives_in _ (List.mem_cons_self ..)
+  have hne := sp.nonempty
+  have hptr := sp.ptr
+  have hwf : WF c a' (m'.owned :: lives) := by
+    have := sp.wf.shrink [m'.owned]
+      (by
+        intro s hs
+        simp only [List.mem_singleton] at hs
+        subst hs
+        simp only [Meta.owned] at *; omega)
+      (by simp)
+    simpa using this
+  refine ⟨hwf, by omega, by omega, ?_, ?_, Nat.le_of_eq sp.alloc_eq.symm, sp.disc, sp.cap_eq, sp.minSeg_eq⟩
+  · simp only [Meta.owned] at hin; omega
+  · simp only [Meta.owned] at hin; omega
+
 theorem allocBytes_ok (c : Cfg) (a a' : A) (lives : List Ext) (n : Nat) (m : Meta)
     (hw : WF c a lives) (h : a.allocBytes c n = (.ok (some m), a')) :
     AllocPost c a a' lives m ∧ m.ptrSize = n := by
-  sorry
+  unfold A.allocBytes at h
+  split at h
+  · simp at h
+  · split at h
+    · simp at h
+    · rename_i h0
+      split at h
+      · rename_i hcap
+        simp only [Prod.mk.injEq, Except.ok.injEq, Option.some.injEq] at h
+        obtain ⟨rfl, rfl⟩ := h
+        refine ⟨AllocPost.of_bump hw _ (a.allocated + n) rfl ?_ ?_ hcap ?_ ?_, rfl⟩ <;>
+          (try simp only [Meta.new]) <;> omega
+      · obtain ⟨m0, hs, hm⟩ := slowEntry_ok h
+        have hm : m = m0 := hm
+        rw [hm]
+        have sp := slow_post hw n h0 m0 a' hs
+        exact ⟨AllocPost.of_slow sp _ rfl rfl (Nat.le_refl _) (Nat.le_refl _), sp.psize⟩
 
 theorem allocAligned_ok (c : Cfg) (a a' : A) (lives : List Ext) (ts ta ex : Nat) (m : Meta)
     (hw : WF c a lives) (hr : ReqOK ts ta) (h : a.allocAligned c ts ta ex = (.ok (some m), a')) :
     AllocPost c a a' lives m ∧ m.ptrOff % ta = 0 ∧ ts + ex ≤ m.ptrSize := by
-  sorry
+  have hge := alignUp_ge ta
+  have hlt := alignUp_lt ta
+  have hta : 1 ≤ ta := by rcases hr.1 with rfl | rfl | rfl | rfl | rfl <;> omega
+  unfold A.allocAligned at h
+  split at h
+  · simp at h
+  · rename_i hro
+    have hro : c.ro = false := by simpa using hro
+    split at h
+    · rename_i hz
+      obtain ⟨hp, hsz⟩ := allocBytes_ok c a a' lives ex m hw h
+      refine ⟨hp, ?_, by omega⟩
+      rcases hz.2 with rfl | rfl
+      · rw [allocBytes_zero c a hro] at h; simp at h
+      · omega
+    · rename_i hz
+      simp only [] at h
+      split at h
+      · rename_i hcap
+        simp only [Prod.mk.injEq, Except.ok.injEq, Option.some.injEq] at h
+        obtain ⟨rfl, rfl⟩ := h
+        have h1 := hge a.allocated hr.1
+        refine ⟨AllocPost.of_bump hw _ (alignUp ta a.allocated + ts + ex) rfl ?_ ?_ hcap ?_ ?_, ?_, ?_⟩
+        · simp only [Meta.alignBytesToS, Meta.new]
+        · omega
+        · simp only [Meta.alignBytesToS, Meta.new]; omega
+        · simp only [Meta.alignBytesToS, Meta.new]; omega
+        · simp only [Meta.alignBytesToS, Meta.new]; exact alignUp_mod _ _
+        · simp only [Meta.alignBytesToS, Meta.new]; omega
+      · split at h
+        · obtain ⟨m0, hs, hm⟩ := slowEntry_ok h
+          have hm : m = m0.alignBytesToS ta := hm
+          rw [hm]
+          have h0 : pad ts ta + ex ≠ 0 := by unfold pad; omega
+          have sp := slow_post hw _ h0 m0 a' hs
+          have h1 := hge m0.ptrOff hr.1
+          have h2 := hlt m0.ptrOff hr.1
+          have h3 := sp.psize
+          unfold pad at h3
+          refine ⟨AllocPost.of_slow sp _ rfl rfl ?_ ?_, ?_, ?_⟩
+          · simp only [Meta.alignBytesToS]; omega
+          · simp only [Meta.alignBytesToS]; omega
+          · simp only [Meta.alignBytesToS]; exact alignUp_mod _ _
+          · simp only [Meta.alignBytesToS]; omega
+        · simp at h
 
 theorem allocT_ok (c : Cfg) (a a' : A) (lives : List Ext) (ts ta : Nat) (m : Meta)
     (hw : WF c a lives) (hr : ReqOK ts ta) (h : a.allocT c ts ta = (.ok (some m), a')) :
     AllocPost c a a' lives m ∧ m.ptrOff % ta = 0 ∧ m.ptrSize = ts := by
-  sorry
+  have hge := alignUp_ge ta
+  have hlt := alignUp_lt ta
+  have hta : 1 ≤ ta := by rcases hr.1 with rfl | rfl | rfl | rfl | rfl <;> omega
+  unfold A.allocT at h
+  split at h
+  · simp at h
+  · split at h
+    · simp at h
+    · rename_i hz
+      simp only [] at h
+      split at h
+      · rename_i hcap
+        simp only [Prod.mk.injEq, Except.ok.injEq, Option.some.injEq] at h
+        obtain ⟨rfl, rfl⟩ := h
+        have h1 := hge a.allocated hr.1
+        refine ⟨AllocPost.of_bump hw _ (alignUp ta a.allocated + ts) rfl ?_ ?_ hcap ?_ ?_, ?_, ?_⟩
+        · simp only [Meta.alignToS, Meta.new]
+        · omega
+        · simp only [Meta.alignToS, Meta.new]; omega
+        · simp only [Meta.alignToS, Meta.new]; omega
+        · simp only [Meta.alignToS, Meta.new]; exact alignUp_mod _ _
+        · simp only [Meta.alignToS, Meta.new]
+      · obtain ⟨m0, hs, hm⟩ := slowEntry_ok h
+        have hm : m = m0.alignToS ta ts := hm
+        rw [hm]
+        have h0 : pad ts ta ≠ 0 := by unfold pad; omega
+        have sp := slow_post hw _ h0 m0 a' hs
+        have h1 := hge m0.ptrOff hr.1
+        have h2 := hlt m0.ptrOff hr.1
+        have h3 := sp.psize
+        unfold pad at h3
+        refine ⟨AllocPost.of_slow sp _ rfl rfl ?_ ?_, ?_, ?_⟩
+        · simp only [Meta.alignToS]; omega
+        · simp only [Meta.alignToS]; omega
+        · simp only [Meta.alignToS]; exact alignUp_mod _ _
+        · simp only [Meta.alignToS]
 
-/-- zero-size requests succeed on any writable arena, even a full one -/
-theorem allocBytes_zero (c : Cfg) (a : A) (hro : c.ro = false) : a.allocBytes c 0 = (.ok none, a) := by
-  sorry
-
-theorem allocT_zero (c : Cfg) (a : A) (ta : Nat) (hro : c.ro = false) : a.allocT c 0 ta = (.ok none, a) := by
-  sorry
-
-/-! ### release -/
-
-/-- releasing the buffer extent `[memOff, memOff+memSize)` of a handle whose owned extent is in `lives` -/
-theorem dealloc_wf (c : Cfg) (a : A) (lives : List Ext) (m : Meta)
-    (hw : WF c a lives) (hm : m.owned ∈ lives) (hne : m.memSize ≠ 0) :
-    WF c (a.dealloc c m.memOff m.memSize).2 (lives.erase m.owned) := by
-  sorry
-
-/-- releasing the null handle of a zero-size request (`dealloc(0, 0)`) changes nothing -/
-theorem dealloc_null (c : Cfg) (a : A) (hw : 1 ≤ a.allocated) (hd : a.discarded < TWO32) : (a.dealloc c 0 0).2 = a := by
-  sorry
-
-theorem dealloc_scalars (c : Cfg) (a : A) (off size : Nat) :
-    (a.dealloc c off size).2.cap = a.cap ∧ (a.dealloc c off size).2.minSeg = a.minSeg ∧
-    (a.dealloc c off size).2.allocated ≤ a.allocated ∧
-    ∃ d, (a.dealloc c off size).2.discarded = (a.discarded + d) % TWO32 := by
-  sorry
-
-theorem discardFreelist_wf (c : Cfg) (a : A) (lives : List Ext) (hw : WF c a lives) :
-    WF c (a.discardFreelist c).2 lives := by
-  sorry
 
 /-! ### histories -/
 
@@ -110,16 +809,187 @@ structure HInv (c : Cfg) (h : HState) : Prop where
 
 def HState.init (cap dataOffset ms : Nat) : HState := { a := A.fresh cap dataOffset ms, held := [], detached := [] }
 
+theorem getElem?_split {α : Type} (l : List α) (i : Nat) (x : α) (h : l[i]? = some x) :
+    ∃ pre post, l = pre ++ x :: post ∧ l.eraseIdx i = pre ++ post := by
+  induction l generalizing i with
+  | nil => simp at h
+  | cons y ys ih =>
+    cases i with
+    | zero =>
+      simp at h
+      subst h
+      exact ⟨[], ys, rfl, rfl⟩
+    | succ j =>
+      simp at h
+      obtain ⟨pre, post, h1, h2⟩ := ih j h
+      exact ⟨y :: pre, post, by simp [h1], by simp [h2]⟩
+
+theorem lives_mem {h : HState} {m : Meta} (hm : m ∈ h.held) (hne : m.memSize ≠ 0) : m.owned ∈ h.lives := by
+  unfold HState.lives
+  apply List.mem_append_left
+  apply List.mem_map_of_mem
+  simp [List.mem_filter, hm, hne]
+
+/-- the cursor bound of `held_ok` follows from well-formedness -/
+theorem HInv.mk' {c : Cfg} {h : HState} (wf : WF c h.a h.lives)
+    (ok : ∀ m ∈ h.held, m.memSize ≠ 0 → m.memOff ≤ m.ptrOff ∧ c.dataOffset ≤ m.ptrOff)
+    (null : ∀ m ∈ h.held, m.memSize = 0 → m = Meta.null ∨ m.ptrSize = 0) : HInv c h := by
+  refine ⟨wf, ?_, null⟩
+  intro m hm hne
+  have h1 := ok m hm hne
+  have h2 := wf.lives_in _ (lives_mem hm hne)
+  simp only [Meta.owned] at h2
+  exact ⟨h1.1, h1.2, by omega⟩
+
+theorem HInv.same {c : Cfg} {h : HState} (hi : HInv c h) (a' : A) (ha : a' = h.a) :
+    HInv c { h with a := a' } := by
+  subst ha; exact hi
+
+theorem HInv.push {c : Cfg} {h : HState} (hi : HInv c h) (m : Meta) (a' : A)
+    (hp : AllocPost c h.a a' h.lives m) : HInv c { h with a := a', held := h.held ++ [m] } := by
+  have hne := hp.nonempty
+  apply HInv.mk'
+  · show WF c a' _
+    refine hp.wf.perm ?_
+    unfold HState.lives
+    simp only [List.filter_append, List.map_append, List.filter_cons, List.filter_nil]
+    have : (m.memSize != 0) = true := by simpa using hne
+    simp only [this, if_true, List.map_cons, List.map_nil, List.append_assoc, List.singleton_append]
+    exact List.perm_middle.symm
+  · intro m' hm' hne'
+    rcases List.mem_append.1 hm' with hm' | hm'
+    · have := hi.held_ok m' hm' hne'
+      exact ⟨this.1, this.2.1⟩
+    · simp only [List.mem_singleton] at hm'
+      subst hm'
+      exact ⟨hp.mem_le_ptr, hp.in_data⟩
+  · intro m' hm' hz
+    rcases List.mem_append.1 hm' with hm' | hm'
+    · exact hi.held_null m' hm' hz
+    · simp only [List.mem_singleton] at hm'
+      subst hm'
+      exact absurd hz hne
+
 theorem HInv.init (c : Cfg) (cap ms : Nat) (h1 : 1 ≤ c.dataOffset) (h2 : c.dataOffset ≤ cap) :
     HInv c (HState.init cap c.dataOffset ms) := by
-  sorry
+  refine ⟨?_, ?_, ?_⟩
+  · exact WF.fresh c cap ms h1 h2
+  · intro m hm; simp [HState.init] at hm
+  · intro m hm; simp [HState.init] at hm
 
 theorem HInv.step (c : Cfg) (h : HState) (op : HOp) (hi : HInv c h) (hop : op.ok) : HInv c (h.step c op) := by
-  sorry
+  cases op with
+  | allocBytes n =>
+    simp only [HState.step]
+    rcases hr : h.a.allocBytes c n with ⟨(e | (_ | m)), a'⟩
+    · exact hi.same _ (allocBytes_err _ _ _ _ _ hr)
+    · exact hi.same _ (allocBytes_none _ _ _ _ hr).1
+    · exact hi.push m a' (allocBytes_ok _ _ _ _ _ _ hi.wf hr).1
+  | allocAligned ts ta ex =>
+    simp only [HState.step]
+    rcases hr : h.a.allocAligned c ts ta ex with ⟨(e | (_ | m)), a'⟩
+    · exact hi.same _ (allocAligned_err _ _ _ _ _ _ _ hr)
+    · exact hi.same _ (allocAligned_none _ _ _ _ _ _ hr).1
+    · exact hi.push m a' (allocAligned_ok _ _ _ _ _ _ _ _ hi.wf hop hr).1
+  | allocT ts ta =>
+    simp only [HState.step]
+    rcases hr : h.a.allocT c ts ta with ⟨(e | (_ | m)), a'⟩
+    · exact hi.same _ (allocT_err _ _ _ _ _ _ hr)
+    · exact hi.same _ (allocT_none _ _ _ _ _ hr).1
+    · exact hi.push m a' (allocT_ok _ _ _ _ _ _ _ hi.wf hop hr).1
+  | release i =>
+    simp only [HState.step]
+    rcases hm : h.held[i]? with _ | m
+    · exact hi
+    · obtain ⟨pre, post, hsplit, herase⟩ := getElem?_split _ _ _ hm
+      have hmem : m ∈ h.held := by rw [hsplit]; simp
+      have hsub : ∀ x ∈ h.held.eraseIdx i, x ∈ h.held := fun x hx => List.mem_of_mem_eraseIdx hx
+      apply HInv.mk'
+      · show WF c (h.a.dealloc c m.memOff m.memSize).2
+          (((h.held.eraseIdx i).filter (fun m => m.memSize != 0)).map Meta.owned ++ h.detached)
+        by_cases hz : m.memSize = 0
+        · rw [hz, dealloc_zero c h.a _ hi.wf.disc]
+          have := hi.wf
+          unfold HState.lives at this
+          rw [hsplit] at this
+          rw [herase]
+          simpa [List.filter_append, List.filter_cons, hz] using this
+        · have hperm : h.lives.Perm (m.owned ::
+              (((h.held.eraseIdx i).filter (fun m => m.memSize != 0)).map Meta.owned ++ h.detached)) := by
+            unfold HState.lives
+            rw [herase, hsplit]
+            have : (m.memSize != 0) = true := by simpa using hz
+            simp only [List.filter_append, List.map_append, List.filter_cons, this, if_true, List.map_cons,
+              List.append_assoc, List.cons_append]
+            exact List.perm_middle
+          have hw := dealloc_wf c h.a h.lives m hi.wf (lives_mem hmem hz) hz
+          refine hw.perm ?_
+          have := hperm.erase m.owned
+          rwa [List.erase_cons_head] at this
+      · intro m' hm' hne'
+        have := hi.held_ok m' (hsub m' hm') hne'
+        exact ⟨this.1, this.2.1⟩
+      · intro m' hm' hz
+        exact hi.held_null m' (hsub m' hm') hz
+  | detach i =>
+    simp only [HState.step]
+    rcases hm : h.held[i]? with _ | m
+    · exact hi
+    · obtain ⟨pre, post, hsplit, herase⟩ := getElem?_split _ _ _ hm
+      have hsub : ∀ x ∈ h.held.eraseIdx i, x ∈ h.held := fun x hx => List.mem_of_mem_eraseIdx hx
+      apply HInv.mk'
+      · show WF c h.a (((h.held.eraseIdx i).filter (fun m => m.memSize != 0)).map Meta.owned ++
+          (if m.memSize != 0 then m.owned :: h.detached else h.detached))
+        have hw := hi.wf
+        unfold HState.lives at hw
+        rw [hsplit] at hw
+        rw [herase]
+        by_cases hz : m.memSize = 0
+        · simpa [List.filter_append, List.filter_cons, hz] using hw
+        · have : (m.memSize != 0) = true := by simpa using hz
+          refine hw.perm ?_
+          simp only [List.filter_append, List.map_append, List.filter_cons, this, if_true, List.map_cons,
+            List.append_assoc, List.cons_append]
+          refine List.Perm.append_left _ ?_
+          exact List.perm_middle.symm
+      · intro m' hm' hne'
+        have := hi.held_ok m' (hsub m' hm') hne'
+        exact ⟨this.1, this.2.1⟩
+      · intro m' hm' hz
+        exact hi.held_null m' (hsub m' hm') hz
+  | setMinSeg n =>
+    simp only [HState.step]
+    split
+    · exact hi
+    · have hw := hi.wf
+      exact ⟨⟨hw.segs, hw.sorted, hw.disjoint, hw.lives_in, hw.lo, hw.mid, hw.hi, hw.none_empty, hw.disc⟩,
+        hi.held_ok, hi.held_null⟩
+  | incDiscarded n =>
+    simp only [HState.step]
+    apply HInv.mk'
+    · exact hi.wf.incDiscarded n
+    · intro m hm hne
+      have := hi.held_ok m hm hne
+      exact ⟨this.1, this.2.1⟩
+    · exact hi.held_null
+  | discardFreelist =>
+    simp only [HState.step]
+    apply HInv.mk'
+    · exact discardFreelist_wf c h.a _ hi.wf
+    · intro m hm hne
+      have := hi.held_ok m hm hne
+      exact ⟨this.1, this.2.1⟩
+    · exact hi.held_null
 
 theorem HInv.run (c : Cfg) (h : HState) (ops : List HOp) (hi : HInv c h) (hops : ∀ o ∈ ops, o.ok) :
     HInv c (h.run c ops) := by
-  sorry
+  unfold HState.run
+  induction ops generalizing h with
+  | nil => exact hi
+  | cons o os ih =>
+    simp only [List.foldl_cons]
+    exact ih _ (HInv.step c h o hi (hops o (List.mem_cons_self ..)))
+      (fun o' ho' => hops o' (List.mem_cons_of_mem _ ho'))
 
 /-- C01 (abstract level): at every point of every history the accessible ranges of the handles still
     held are pairwise disjoint, lie in `[dataOffset, allocated)`, and avoid every free segment and
@@ -128,6 +998,34 @@ theorem held_exclusive (c : Cfg) (h : HState) (hi : HInv c h) :
     ((h.held.filter (fun m => m.memSize != 0)).map Meta.access).Pairwise disj ∧
     (∀ m ∈ h.held, m.memSize ≠ 0 → ∀ g ∈ h.a.free, disj m.access g.ext) ∧
     (∀ m ∈ h.held, m.memSize ≠ 0 → ∀ e ∈ h.detached, disj m.access e) := by
-  sorry
+  have hd := hi.wf.disjoint
+  rw [List.pairwise_append] at hd
+  obtain ⟨_, hL, hFL⟩ := hd
+  have hL' := hL
+  unfold HState.lives at hL'
+  rw [List.pairwise_append] at hL'
+  obtain ⟨hH, _, hHD⟩ := hL'
+  have hsub : ∀ m ∈ h.held, m.memSize ≠ 0 → m.owned.1 ≤ m.access.1 ∧ m.access.2 ≤ m.owned.2 := by
+    intro m hm hne
+    have := hi.held_ok m hm hne
+    simp only [Meta.owned, Meta.access]; omega
+  refine ⟨?_, ?_, ?_⟩
+  · rw [List.pairwise_map] at hH ⊢
+    refine List.Pairwise.imp_of_mem ?_ hH
+    intro x y hx hy hxy
+    simp only [List.mem_filter, bne_iff_ne, ne_eq] at hx hy
+    have h1 := hsub x hx.1 hx.2
+    have h2 := hsub y hy.1 hy.2
+    exact disj_symm (disj_sub (disj_symm (disj_sub hxy h1.1 h1.2)) h2.1 h2.2)
+  · intro m hm hne g hg
+    have h1 := hsub m hm hne
+    have := hFL g.ext (List.mem_map_of_mem hg) m.owned (lives_mem hm hne)
+    exact disj_sub (disj_symm this) h1.1 h1.2
+  · intro m hm hne e he
+    have h1 := hsub m hm hne
+    have hmo : m.owned ∈ (h.held.filter (fun m => m.memSize != 0)).map Meta.owned := by
+      apply List.mem_map_of_mem
+      simp [List.mem_filter, hm, hne]
+    exact disj_sub (hHD _ hmo e he) h1.1 h1.2
 
 end Rarena
